@@ -51,8 +51,10 @@ def match_finding(findings, prop, res: Result):
         if key != res.oid and not (key.endswith("*") and res.oid.startswith(key[:-1])):
             continue
         wclass = fd.get("witness_class")
-        if wclass is not None and (res.witness or {}).get("class") != wclass:
-            continue
+        if wclass is not None:
+            allowed = wclass if isinstance(wclass, list) else [wclass]
+            if (res.witness or {}).get("class") not in allowed:
+                continue
         return fd
     return None
 
